@@ -204,6 +204,13 @@ pub fn run_case(c: &Case) -> sim::RunReport {
     sim::run_one(&sim::RunSpec { prog: c.prog.clone(), strategy: c.strategy.clone(), sched_seed: c.sched_seed, replay: None, sweep_fire_at: c.sweep_fire_at, step_cap: STEP_CAP })
 }
 
+fn progress_path(root: Option<&str>, prop: &str, wi: u64) -> Option<String> {
+    let root = root.map(|r| r.to_string()).or_else(|| std::env::var("DESIM_VERIF_ROOT").ok())?;
+    let dir = format!("{}/replays/{}", root, prop);
+    std::fs::create_dir_all(&dir).ok()?;
+    Some(format!("{}/.progress-{}", dir, wi))
+}
+
 fn worker(a: &Args) {
     let prop = a.get("prop").expect("--prop").to_string();
     let tier = a.get("tier").unwrap_or("quick").to_string();
@@ -246,11 +253,18 @@ fn worker(a: &Args) {
             }
         });
     }
+    // The case about to run is noted in a small file (one pwrite per case): if the code under test corrupts memory and the
+    // process dies, the parent can name the case.
+    let progress = progress_path(None, &prop, wi).and_then(|p| std::fs::OpenOptions::new().create(true).write(true).truncate(true).open(p).ok());
     'outer: for fam in &fams {
         let total = ((if thorough { fam.thorough_runs } else { fam.quick_runs }) as f64 * scale) as u64;
         let mut i = wi;
         while i < total {
             beat.fetch_add(1, std::sync::atomic::Ordering::Relaxed);
+            if let Some(f) = &progress {
+                use std::os::unix::fs::FileExt;
+                let _ = f.write_at(format!("{:<40} {:>14}\n", fam.name, i).as_bytes(), 0);
+            }
             if let Ok(mut g) = current.lock() {
                 if g.0 != fam.name {
                     g.0 = fam.name.to_string();
@@ -512,15 +526,29 @@ fn check(a: &Args) -> i32 {
         println!("  {} [blocked_outside_the_simulation]: family {} case {}: a run never finished: a thread blocked outside the modelled primitives (for example in a nested executor's own park); {} simulator processes gave up", prop, fam, idx, hung_cases.len());
         exit = 1;
     }
-    if prop == "C14" && !crashed_workers.is_empty() && exit == 0 {
+    if !crashed_workers.is_empty() && exit == 0 {
+        // A simulator process died (segmentation fault, abort, stack overflow): on a tree on which the property holds no run does
+        // that, the simulated library executes nothing but its own code and the harness's.  It is memory corruption or a double
+        // panic inside the code under test, reported against the property being checked (for C14 it is the property itself).
         let dir = format!("{}/replays/{}", verif_root, prop);
         std::fs::create_dir_all(&dir).ok();
         let wi = crashed_workers[0];
-        let path = format!("{}/crash-worker-{}-of-{}.json", dir, wi, n);
         let scale = a.get("scale").unwrap_or("1").to_string();
-        std::fs::write(&path, serde_json::to_string_pretty(&json!({"property": "C14", "crash_slice": {"tier": tier, "seed": seed, "worker": wi, "of": n, "scale": scale}, "what": crashed[0]})).unwrap()).ok();
-        println!("VIOLATION property=C14 replay={}", path);
-        println!("  the simulator process executing slice {}/{} died ({}): memory corruption in the code under test", wi, n, crashed[0]);
+        let at = progress_path(Some(&verif_root), &prop, wi as u64).and_then(|p| std::fs::read_to_string(p).ok()).and_then(|t| {
+            let mut it = t.split_whitespace();
+            Some((it.next()?.to_string(), it.next()?.parse::<u64>().ok()?))
+        });
+        let (path, what) = match &at {
+            Some((fam, idx)) => (format!("{}/crash-{}-{}.json", dir, fam, idx), format!("family {} case {}", fam, idx)),
+            None => (format!("{}/crash-worker-{}-of-{}.json", dir, wi, n), format!("slice {}/{}", wi, n)),
+        };
+        let mut j = json!({"property": prop, "crash_slice": {"tier": tier, "seed": seed, "worker": wi, "of": n, "scale": scale}, "what": crashed[0]});
+        if let Some((fam, idx)) = &at {
+            j["crash_case"] = json!({"family": fam, "index": idx, "seed": seed, "tier": tier});
+        }
+        std::fs::write(&path, serde_json::to_string_pretty(&j).unwrap()).ok();
+        println!("VIOLATION property={} replay={}", prop, path);
+        println!("  {} [simulator_process_died]: the simulator process executing {} died ({}): memory corruption (or a panic while panicking) in the code under test; {} processes died", prop, what, crashed[0], crashed_workers.len());
         tot.violation_count += 1;
         exit = 1;
     }
@@ -631,10 +659,26 @@ fn replay(a: &Args) -> i32 {
     let path = a.pos.get(1).expect("replay <file>");
     let text = std::fs::read_to_string(path).expect("read replay");
     if let Ok(v) = serde_json::from_str::<serde_json::Value>(&text) {
+        let vprop = v["property"].as_str().unwrap_or("C14").to_string();
+        if let Some(c) = v.get("crash_case") {
+            let exe = std::env::current_exe().unwrap();
+            let st = std::process::Command::new(exe)
+                .arg("case").arg("--prop").arg(&vprop)
+                .arg("--family").arg(c["family"].as_str().unwrap_or(""))
+                .arg("--index").arg(c["index"].as_u64().unwrap_or(0).to_string())
+                .arg("--seed").arg(c["seed"].as_u64().unwrap_or(DEFAULT_SEED).to_string())
+                .stdout(std::process::Stdio::null()).stderr(std::process::Stdio::null()).status().expect("run case");
+            if !st.success() {
+                println!("VIOLATION property={} replay={}", vprop, path);
+                println!("reproduced: the process running the case died again: {:?}", st);
+                return 1;
+            }
+            println!("the case alone ran to its end; running the slice it was part of");
+        }
         if let Some(c) = v.get("crash_slice") {
             let exe = std::env::current_exe().unwrap();
             let st = std::process::Command::new(exe)
-                .arg("worker").arg("--prop").arg("C14")
+                .arg("worker").arg("--prop").arg(&vprop)
                 .arg("--tier").arg(c["tier"].as_str().unwrap_or("quick"))
                 .arg("--seed").arg(c["seed"].as_u64().unwrap_or(DEFAULT_SEED).to_string())
                 .arg("--worker").arg(c["worker"].as_u64().unwrap_or(0).to_string())
@@ -642,7 +686,7 @@ fn replay(a: &Args) -> i32 {
                 .arg("--scale").arg(c["scale"].as_str().unwrap_or("1"))
                 .stdout(std::process::Stdio::null()).status().expect("run slice");
             if !st.success() {
-                println!("VIOLATION property=C14 replay={}", path);
+                println!("VIOLATION property={} replay={}", vprop, path);
                 println!("reproduced: the slice died again: {:?}", st);
                 return 1;
             }
